@@ -70,23 +70,60 @@ func NewZSetMember(score float64, data string) *ZSetMember {
 
 func (zset *ZSet) Add(nms []*ZSetMember, opt ZAddOption) int {
 	addedMemberCount := 0
+	changedMemberCount := 0
 	for _, nm := range nms {
-		isAdded := false
-		for n, tm := range zset.members {
-			if nm.Score < tm.Score {
-				zset.members = append(zset.members[:n+1], zset.members[n:]...)
-				zset.members[n] = nm
-				isAdded = true
-				addedMemberCount++
-				break
+		newScore := nm.Score
+		// A sorted set holds one entry per member: updates the score of an existing member.
+		if n := zset.indexOf(nm.Member); 0 <= n {
+			tm := zset.members[n]
+			if opt.NX {
+				continue
 			}
-		}
-		if !isAdded {
-			zset.members = append(zset.members, nm)
+			if opt.INCR {
+				newScore = tm.Score + nm.Score
+			}
+			if (opt.GT && newScore <= tm.Score) || (opt.LT && tm.Score <= newScore) {
+				continue
+			}
+			if newScore == tm.Score {
+				continue
+			}
+			zset.members = append(zset.members[:n], zset.members[n+1:]...)
+			changedMemberCount++
+		} else {
+			if opt.XX {
+				continue
+			}
 			addedMemberCount++
 		}
+		zset.insert(&ZSetMember{Score: newScore, Member: nm.Member})
+	}
+	if opt.CH {
+		return addedMemberCount + changedMemberCount
 	}
 	return addedMemberCount
+}
+
+// indexOf returns the index of the member, or -1.
+func (zset *ZSet) indexOf(member string) int {
+	for n, tm := range zset.members {
+		if tm.Member == member {
+			return n
+		}
+	}
+	return -1
+}
+
+// insert keeps the members ordered by score, and by member name within the same score.
+func (zset *ZSet) insert(nm *ZSetMember) {
+	for n, tm := range zset.members {
+		if nm.Score < tm.Score || (nm.Score == tm.Score && nm.Member < tm.Member) {
+			zset.members = append(zset.members[:n+1], zset.members[n:]...)
+			zset.members[n] = nm
+			return
+		}
+	}
+	zset.members = append(zset.members, nm)
 }
 
 func (zset *ZSet) Range(start int, stop int, opt ZRangeOption) []*ZSetMember {
@@ -201,7 +238,9 @@ func (server *Server) ZAdd(conn *redis.Conn, key string, members []*redis.ZSetMe
 	if err != nil {
 		return nil, err
 	}
-	return redis.NewIntegerMessage(zset.Add(members, opt)), nil
+	addedMemberCount := zset.Add(members, opt)
+	db.RemoveRecordIfEmpty(key) // XX on a missing key adds nothing
+	return redis.NewIntegerMessage(addedMemberCount), nil
 }
 
 func (server *Server) ZRange(conn *redis.Conn, key string, start int, stop int, opt redis.ZRangeOption) (*redis.Message, error) {
